@@ -41,9 +41,15 @@ type Case struct {
 	// to it; Recv is then the receiver the model expects before the second call
 	Pre   string `json:"pre,omitempty"`
 	Recv0 any    `json:"recv0,omitempty"`
+	// "afterwards" family ("aft"): the write performed after the call, and its tag
+	Write string `json:"write,omitempty"`
+	Tag   string `json:"tag,omitempty"`
 }
 
 func (c *Case) String() string {
+	if c.Fam == "aft" {
+		return aftString(c)
+	}
 	if c.Pre != "" {
 		return "$r = " + lit(c.Recv0) + "; " + preSrc(c.Pre) + " $r" + strings.TrimPrefix(callSrc(c, atoms{}, true), lit(c.Recv))
 	}
@@ -316,6 +322,8 @@ type Exp struct {
 	Trace    []string // expected callback invocations, in order
 	TraceMin int      // -1: exact; otherwise any prefix of Trace with at least TraceMin entries
 	Note     string
+	AltArgs  []map[int]V // "afterwards" family: per alternative, the array arguments (by position) after the later write
+	Base     *Out        // "afterwards" family: result / receiver right after the call, before the later write
 }
 
 func same(recv []any, res ...V) Exp {
